@@ -37,4 +37,34 @@ def encVarintImp (n : Nat) : Bytes × Nat :=
   | some last => (res.dropLast.map (fun g => UInt8.ofNat (g ||| 128)) ++ [UInt8.ofNat last], res.dropLast.length + 1)
   | none => ([0], 1)
 
+/-! ### The decoder with what it reports on failure (added by the C14 audit round; `varint` above is unchanged and is
+proved to be this function with the failure detail forgotten, `C14_varintE_refines`).
+Rust: `r.read_u8()?` fails with `Error::Io(UnexpectedEof)` when the input is exhausted (nothing more is consumed);
+the zero rule returns `ParseFailed("VarInt has a zero …")` right after reading the offending byte; the accumulation
+loop returns `ParseFailed("VarInt overflows u64")` after ALL groups up to the terminator have been read. The `Nat`
+is the reader position (bytes consumed) at the moment of the failure. -/
+inductive VErr | eof | zero | overflow
+deriving DecidableEq, Repr
+
+def collectE : Bytes → List Nat → Nat → Except (VErr × Nat) (List Nat × Bytes)
+  | [], _, pos => .error (.eof, pos)
+  | b :: bs, acc, pos =>
+    if b.toNat = 0 ∧ acc ≠ [] then .error (.zero, pos + 1)
+    else if b.toNat < 128 then .ok (acc ++ [b.toNat % 128], bs)
+    else collectE bs (acc ++ [b.toNat % 128]) (pos + 1)
+
+def varintE (b : Bytes) : Except (VErr × Nat) (Nat × Bytes) :=
+  match collectE b [] 0 with
+  | .error e => .error e
+  | .ok (gs, rest) =>
+    match accum gs.reverse 0 with
+    | none => .error (.overflow, b.length - rest.length)
+    | some n => .ok (n, rest)
+
+/-- `deserialize::<VarInt>` (encode.rs:84-95): `deserialize_partial`, then everything must have been consumed -/
+def varintExact (b : Bytes) : Option Nat :=
+  match varint b with
+  | some (n, []) => some n
+  | _ => none
+
 end Monero
